@@ -13,7 +13,7 @@ ID = "C18"
 LEVEL = "exploration"
 RULE = ("generated trees decorated with symbolic links: targets absolute or relative to the link's own directory (x, ../x, "
         "../../x/y), to files, to directories inside the root, outside the root, to ancestors (cycles), self-links, mutual "
-        "pairs, chains, dangling links, and links in different directories that carry the same relative text (resolving to "
+        "pairs, chains, dangling links, optional `maxdepth` 1..4 windows, and links in different directories that carry the same relative text (resolving to "
         "a directory here, a file or nothing there), at depth 1..4; root given as `.`, relative or absolute; bfs/dfs. Everything "
         "runs inside a chroot jail with the tree several levels deep, so a mis-resolved `..` stays bounded. Oracle with "
         "`symlinks`: terminates within the CPU limit; the multiset of real entries (realpath of the row's directory + "
@@ -24,7 +24,7 @@ RULE = ("generated trees decorated with symbolic links: targets absolute or rela
         "directly and through a link, or two links with one text of which only one leads to a directory); distinct by canonical JSON of the case.")
 ASSUMPTIONS = [
     "which of several paths to a directory is displayed, and exit status / messages with dangling or self-referential links, are not asserted",
-    "depth windows are not combined with `symlinks` (nesting level behind a link is ambiguous)",
+    "with a depth window next to `symlinks` the nesting level behind a link is ambiguous (logical level of the link + 1, or the real level of the target): only what both readings agree on is required - every real entry inside the window, and the immediate contents of every directory link that sits inside the window in a link-free directory; nothing outside the closure; nothing twice. mindepth is not combined with `symlinks`",
 ]
 
 NAMES = ["a", "b", "c", "d1", "e2", "f", "g", "x", "y", "z"]
@@ -57,7 +57,9 @@ def strategy_(draw, tier):
         links.append({"at": list(where), "name": "L%d" % i, "kind": kind,
                       "pick": draw(st.sampled_from(range(16))), "up": draw(st.sampled_from([1, 1, 2, 3]))})
     return {"tree": spec, "outside": outside, "links": links, "root": draw(st.sampled_from(["dot", "rel", "abs"])),
-            "mode": draw(st.sampled_from(["", "bfs", "dfs"]))}
+            "mode": draw(st.sampled_from(["", "bfs", "dfs"])),
+            # a depth window next to `symlinks` (half of the cases): see window_requirements()
+            "maxdepth": draw(st.sampled_from([None, None, None, None, 1, 2, 3, 4]))}
 
 
 def strategy(tier):
@@ -174,6 +176,30 @@ def closure(jroot, root_real):
     return rows, seen, followed
 
 
+def window_requirements(jroot, root_real, made, n):
+    """Rows that `symlinks maxdepth n` must contain whatever notion of depth applies behind a link:
+    (a) every real entry at level <= n below the root (no link needed to reach it);
+    (b) the immediate contents of the target of every directory link that itself sits at level < n in a real
+        (link-free) directory below the root - the link is inside the window, so are its contents one level down."""
+    need = set()
+    base = jroot + root_real
+    for dp, dn, fn in os.walk(base):
+        rel = dp[len(base):].strip("/")
+        level = (rel.count("/") + 2) if rel else 1
+        if level > n:
+            dn[:] = []
+            continue
+        for name in dn + fn:
+            need.add((root_real + ("/" + rel if rel else ""), name))
+    for at, name, _text in made:
+        if len(at) + 1 < n:
+            t = jresolve(jroot, root_real + "".join("/" + c for c in at) + "/" + name)
+            if t is not None and os.path.isdir(jroot + t):
+                for child in os.listdir(jroot + t):
+                    need.add((t, child))
+    return need
+
+
 def check(case):
     out = Outcome()
     j = jail()
@@ -184,8 +210,9 @@ def check(case):
         cwd = inner + "/t" if case["root"] == "dot" else inner
         root_text = {"dot": ".", "rel": "t", "abs": inner + "/t"}[case["root"]]
         opts = (" " + case["mode"]) if case["mode"] else ""
+        window = case.get("maxdepth")
         # --- with symlinks
-        q = "path from %s symlinks%s into list" % (root_text, opts)
+        q = "path from %s symlinks%s%s into list" % (root_text, " maxdepth %d" % window if window else "", opts)
         res = runner.run_jailed(j, [q], cwd=cwd)
         out.evals += 1
         if res.wall_timeout:
@@ -213,7 +240,14 @@ def check(case):
         if unresolved:
             out.add("C18/row-path-does-not-resolve", query=q, rows=unresolved[:5], links=made)
         twice = [k for k, c in got.items() if c > 1]
-        missing = [k for k in want if k not in got]
+        if window:
+            need = window_requirements(j, inner + "/t", made, window)
+            missing = sorted(k for k in need if k not in got)
+            out.classes.append("depth-window")
+            if any(k[0] != inner + "/t" and not k[0].startswith(inner + "/t/") for k in need):
+                out.classes.append("depth-window/link-leads-outside")
+        else:
+            missing = [k for k in want if k not in got]
         extra = [k for k in got if k not in want]
         if twice:
             out.add("C18/listed-twice", query=q, entries=["%s/%s" % k for k in twice][:6], links=made, rows=rows[:40])
@@ -255,7 +289,7 @@ def check(case):
                 verdicts[m[2]].add("none" if r is None else "dir" if os.path.isdir(j + r) else "other")
         same_text = any(len(v) > 1 and "dir" in v for v in verdicts.values())
         out.nontrivial = bool(followed) and (cyc or rel_deep or both or same_text)
-        out.classes = sorted({"links=%d" % len(made), "root=" + case["root"], "mode=" + (case["mode"] or "default")} |
+        out.classes = sorted(set(out.classes) | {"links=%d" % len(made), "root=" + case["root"], "mode=" + (case["mode"] or "default")} |
                              {"kind=" + l["kind"] for l in case["links"]} | ({"followed-dir-link"} if followed else set()) |
                              ({"cycle"} if cyc else set()) | ({"dir-reachable-twice"} if both else set()) |
                              ({"same-text-different-kind"} if same_text else set()))
